@@ -228,3 +228,67 @@ def alternatives(facts, fn, term, depth=2):
             res = [r + (a_,) for r in res for a_ in alts][:16]
         return res
     return [render(strip(x)) if isinstance(x, tuple) else str(x) for x in expand(term, depth)]
+
+
+def covers_all(dnf, ignore=lambda a: False, limit=8192):
+    """True if the disjunction of the clauses, with the atoms selected by `ignore` taken as true, holds for every valuation of the
+    remaining atoms: discriminant tests range over the enum's variants (or the mentioned ones plus "another"), boolean expressions
+    over {true, false}, comparisons over {<, =, >}, integer tests over the mentioned values plus "another". Returns None when the
+    valuation space exceeds `limit`. Exact, order-independent replacement for syntactic clause merging."""
+    import itertools
+    from .pathcond import UNIVERSE
+    clauses = [[a for a in c if not ignore(a)] for c in dnf]
+    if any(not c for c in clauses):
+        return True
+    doms = {}
+    for c in clauses:
+        for a in c:
+            if a[0] in ('is', 'isin', 'isnot'):
+                vs = [a[2]] if a[0] == 'is' else list(a[2])
+                d = doms.setdefault(('d', a[1]), set())
+                d.update(vs)
+            elif a[0] == 'bool':
+                doms[('b', a[1])] = {True, False}
+            elif a[0] == 'cmp':
+                doms[('c', a[1], a[2])] = {'<', '=', '>'}
+            elif a[0] in ('int', 'intnot'):
+                doms.setdefault(('i', a[1]), set()).update(a[2])
+            else:
+                return False
+    keys = sorted(doms, key=repr)
+    spaces = []
+    for k in keys:
+        if k[0] == 'd':
+            u = UNIVERSE.get(k[1])
+            spaces.append(sorted(u) if u else sorted(doms[k]) + ['<other>'])
+        elif k[0] == 'i':
+            spaces.append(sorted(doms[k]) + ['<other>'])
+        else:
+            spaces.append(sorted(doms[k], key=repr))
+    n = 1
+    for sp in spaces:
+        n *= len(sp)
+        if n > limit:
+            return None
+
+    def holds(a, val):
+        if a[0] == 'is':
+            return val[('d', a[1])] == a[2]
+        if a[0] == 'isin':
+            return val[('d', a[1])] in a[2]
+        if a[0] == 'isnot':
+            return val[('d', a[1])] not in a[2]
+        if a[0] == 'bool':
+            return val[('b', a[1])] == a[2]
+        if a[0] == 'cmp':
+            return val[('c', a[1], a[2])] in a[3]
+        if a[0] == 'int':
+            return val[('i', a[1])] in a[2]
+        if a[0] == 'intnot':
+            return val[('i', a[1])] not in a[2]
+        return False
+    for combo in itertools.product(*spaces):
+        val = dict(zip(keys, combo))
+        if not any(all(holds(a, val) for a in c) for c in clauses):
+            return False
+    return True
